@@ -78,10 +78,11 @@ Fixpoint lookup (l : list (N * sstate)) (id : N) : option sstate :=
 (* 5.1.1: client streams are odd; opening a stream closes every lower idle one.  This
    server never pushes, so even ids stay idle for ever. *)
 Definition st_of (s : state) (id : N) : sstate :=
-  match lookup (known s) id with
-  | Some x => x
-  | None => if N.even id then Idle else if id <=? highest s then Closed Implicit else Idle
-  end.
+  if N.even id then Idle
+  else match lookup (known s) id with
+       | Some x => x
+       | None => if id <=? highest s then Closed Implicit else Idle
+       end.
 
 Definition set_st (s : state) (id : N) (x : sstate) : state :=
   mkS (N.max (highest s) id) ((id, x) :: known s) (block s) (goaway s) (dead s).
@@ -114,8 +115,9 @@ Definition by_state (s : state) (f : frame) : list verdict :=
   (* idle: HEADERS opens it, PRIORITY is fine, anything else is a connection error *)
   | Idle, HEADERS =>
     if N.even (f_sid f) then [CE c_ProtocolError]                        (* 5.1.1 *)
-    else (if f_self f then [SE c_ProtocolError] else [VProcess])         (* 5.3.1 *)
-         ++ policy ++ block_errors ++ (if goaway s then [VIgnore] else [])   (* 6.8 *)
+    else (if f_self f then [SE c_ProtocolError]                          (* 5.3.1 *)
+          else if goaway s then [VIgnore] else [VProcess])               (* 6.8: no new streams after GOAWAY *)
+         ++ policy ++ block_errors
   | Idle, PRIORITY => priority_frame f
   | Idle, _ => [CE c_ProtocolError]
   (* open, half-closed (local): everything may arrive *)
@@ -132,7 +134,8 @@ Definition by_state (s : state) (f : frame) : list verdict :=
   (* closed *)
   | Closed _, PRIORITY => VIgnore :: (if f_self f then [SE c_ProtocolError] else [])
   | Closed _, CONTINUATION => VIgnore :: block_errors      (* the rest of a block whose HEADERS was answered *)
-  | Closed Implicit, _ => unknown_closed
+  | Closed Implicit, HEADERS => unknown_closed              (* 5.1.1: an id cannot be used again *)
+  | Closed Implicit, _ => VIgnore :: unknown_closed         (* as if remembered, or an error *)
   | Closed _, RST_STREAM => [VIgnore]                       (* 6.4: never answered by RST_STREAM *)
   | Closed WeRst, HEADERS => VIgnore :: block_errors        (* we reset it: frames in flight are ignored *)
   | Closed WeRst, _ => [VIgnore]
@@ -181,9 +184,14 @@ Definition verdicts (s : state) (i : input) : list verdict :=
   end.
 
 (* Once we have signalled a connection error the connection is over (5.4.1: the endpoint
-   MUST close it): the RFC has nothing more to say about what arrives on it. *)
+   MUST close it): how further frames are turned down no longer matters - but nothing
+   the table does not allow may take effect or be silently dropped. *)
+Definition is_error (r : reaction) : bool := match r with Process | Ignore => false | _ => true end.
+
 Definition allowed (s : state) (i : input) (r : reaction) : bool :=
-  dead s || existsb (fun v => admits v r) (verdicts s i).
+  existsb (fun v => admits v r) (verdicts s i)
+  || (dead s && is_error r)
+  || (goaway s && match r with ConnClose => true | _ => false end).   (* 6.8: we announced we are leaving *)
 
 (* ---------- transitions ---------- *)
 
@@ -213,16 +221,21 @@ Definition upd_st (s : state) (id : N) (x : sstate) : state :=
 
 Definition with_block (s : state) (b : option N) : state := mkS (highest s) (known s) b (goaway s) (dead s).
 
+(* 6.2, 6.10: a HEADERS frame outside a header block, or the CONTINUATION the open block expects *)
+Definition in_sequence (s : state) (f : frame) : bool :=
+  match f_kind f, block s with
+  | HEADERS, None => true
+  | CONTINUATION, Some b => f_sid f =? b
+  | _, _ => false
+  end.
+
 Definition die (s : state) : state := mkS (highest s) (known s) (block s) true true.
 
 Definition spec_next (s : state) (i : input) (r : reaction) : state :=
   match i with
   | Frame f =>
     (* 4.3: a header block stays open until END_HEADERS, whatever became of its stream *)
-    let s1 := match f_kind f with
-              | HEADERS | CONTINUATION => with_block s (if f_eh f then None else Some (f_sid f))
-              | _ => s
-              end in
+    let s1 := if in_sequence s f then with_block s (if f_eh f then None else Some (f_sid f)) else s in
     let x := st_of s (f_sid f) in
     match r with
     | Process => if f_sid f =? 0 then s1 else upd_st s1 (f_sid f) (receive x f)
@@ -234,7 +247,7 @@ Definition spec_next (s : state) (i : input) (r : reaction) : state :=
   end.
 
 (* what we send on our own account (responses, cancellations, shutdown) *)
-Inductive sent : Type := SentEndStream (sid : N) | SentRst (sid : N) | SentGoAway.
+Inductive sent : Type := SentEndStream (sid : N) | SentRst (sid : N) | SentGoAway | Closed_connection.
 
 Definition spec_sent (s : state) (o : sent) : state :=
   match o with
@@ -250,6 +263,7 @@ Definition spec_sent (s : state) (o : sent) : state :=
     | _ => s
     end
   | SentGoAway => mkS (highest s) (known s) (block s) true (dead s)
+  | Closed_connection => die s
   end.
 
 (* 5.1 "closed": an endpoint may limit the period over which it remembers how a stream
@@ -281,16 +295,20 @@ Definition legal (fs : list frame) : bool := legal_from init fs.
    CONTINUATIONs, DATA frames, optionally a trailer block, END_STREAM on the last DATA or
    on the HEADERS of the last block, END_HEADERS closing each block; PRIORITY and
    WINDOW_UPDATE frames anywhere after the first block do not count. *)
-Inductive phase : Type := PStart | PHead (es : bool) | PBody | PTrail | PDone | PBad.
+Inductive phase : Type :=
+| PStart              (* nothing but PRIORITY frames so far *)
+| PHead (es : bool)   (* inside a header block; es: its HEADERS frame carried END_STREAM *)
+| PBody               (* request headers complete, END_STREAM not seen *)
+| PDone               (* complete *)
+| PBad.
 
 Definition request_step (p : phase) (f : frame) : phase :=
   match p, f_kind f with
+  | PStart, PRIORITY => PStart
   | PStart, HEADERS => if f_eh f then (if f_es f then PDone else PBody) else PHead (f_es f)
   | PHead es, CONTINUATION => if f_eh f then (if es then PDone else PBody) else PHead es
   | PBody, DATA => if f_es f then PDone else PBody
-  | PBody, HEADERS => if f_es f then (if f_eh f then PDone else PTrail) else PBad
-  | PTrail, CONTINUATION => if f_eh f then PDone else PTrail
-  | PStart, PRIORITY => PStart
+  | PBody, HEADERS => if f_es f then (if f_eh f then PDone else PHead true) else PBad   (* trailers *)
   | (PBody | PDone), (PRIORITY | WINDOW_UPDATE) => p
   | _, _ => PBad
   end.
